@@ -713,8 +713,20 @@ static std::string runOp(Bed& bed, const std::string& text)
 			grpPos.push_back(bed.posOf(grp[i].GetRaw())); std::vector<long> k = keyOf(mask, readRef(grp[i]));
 			if (seenKeys.empty() || seenKeys.back() != k) { if (std::find(seenKeys.begin(), seenKeys.end(), k) != seenKeys.end()) bed.bad("Selection::Group: equal keys are not contiguous"); seenKeys.push_back(k); } }
 		std::sort(grpPos.begin(), grpPos.end()); if (grpPos != expPos) bed.bad("Selection::Group: rows are not a permutation of the selection");
+		// the hash codes (momo's own DataTraits::AccumulateHashCode, as DataSelection::pvGetHashCode does) of the grouped rows must
+		// be non-decreasing (HashSorter sorts by hash code first); the lengths of the runs of equal codes are the counts passed to
+		// groupFunc - compared with GroupModel.group_runs for int columns
+		long gd = 0; { size_t prevCode = 0; long runLen = 0;
+			for (size_t i = 0; i < grp.GetCount(); ++i) { R4 r = readRef(grp[i]); size_t code = 0;
+				if (mask & 8) Traits::AccumulateHashCode(code, strOf(r.v[3]), size_t(0));
+				for (int q = 2; q >= 0; --q) if (mask >> q & 1) Traits::AccumulateHashCode(code, int(r.v[q]), size_t(0));
+				if (i > 0 && code < prevCode) bed.bad("Selection::Group: hash codes are not non-decreasing");
+				if (i > 0 && code != prevCode) { gd = foldDigest(gd, runLen); runLen = 0; }
+				prevCode = code; ++runLen; }
+			if (runLen > 0) gd = foldDigest(gd, runLen);
+			if (mask & 8) gd = -1; }
 		long d = 0; for (auto& k : gotKeys) d = foldDigest(d, keyHash(k));
-		out << "s " << gotKeys.size() << " " << d << " " << lb << " " << ub;
+		out << "s " << gotKeys.size() << " " << d << " " << lb << " " << ub << " g " << gd;
 	}
 	else if (cmd == "D")
 	{
